@@ -338,14 +338,14 @@ theorem KInv_local (F : Flags) (c : Config) (a : Nat) (x : Act) (ev : Ev) (y : A
       · cases h1
       · exact .inr (.inl h1)
       · exact .inr (.inr (.inl h1))
-      · simp only [Act.stop, Act.stopDeps, depErr_isOk] at h1; rw [hr] at h1; cases h1
+      · simp only [Act.stopDeps, depErr_isOk] at h1; rw [hr] at h1; cases h1
   | _ =>
     refine KInv_same _ x _ hf ?_ ?_ ?_ ?_ ?_ hK
     · intro s hm; simp_all [mayRun]
-    · intro hp; simp_all [preDeps, Act.stop, Act.stopDeps]
-    · intro hp; simp_all [preDeps, Act.stop, Act.stopDeps]
-    · intro i d hp; simp_all [Act.stop, Act.stopDeps]
-    · intro hp; simp_all [depsPassed, bodyPhase, lateP, preDeps, Act.stop, Act.stopDeps]
+    · intro hp; simp_all [preDeps, Act.stop]
+    · intro hp; simp_all [preDeps, Act.stop]
+    · intro i d hp; simp_all [Act.stop]
+    · intro hp; simp_all [depsPassed, bodyPhase, lateP, preDeps, Act.stop]
 
 /-- **The tree invariant holds of every activation of every reachable configuration.** -/
 theorem KInv_sound (P : Program) (F : Flags) (n : Nat) (tr : List Label) (c : Config)
